@@ -125,5 +125,7 @@ EmitState ==
       heft |-> {<<u, v>> \in IDs \X IDs : HasFromTo(u, v)},
       heb  |-> {<<u, v>> \in IDs \X IDs : HasBetween(u, v)},
       w    |-> {[u |-> u, v |-> v, k |-> Weight(u, v).k, w |-> Weight(u, v).w] : u \in IDs, v \in IDs},
-      deg  |-> [u \in IDs |-> Degree(u)]]))
+      deg  |-> [u \in IDs |-> Degree(u)],
+      \* the undirected projection (graph.Undirect / graph.UndirectWeighted of a directed graph)
+      ufrom |-> [u \in IDs |-> From(u) \cup To(u)]]))
 =============================================================================
